@@ -36,10 +36,40 @@ ALL_CONT = {'list', 'tuple', 'set', 'sdict', 'gdict', 'inst'}
 def cfg(kinds, N, E, deg=2, pairs=1, nkeys=2, fixed=True, emit=True, rvars=(1, 2, 3, 4, 5), globs=(0,), roots=None, invariants=None):
     return dict(spec='Spec', check_deadlock=True, invariants=invariants or INVARIANTS,
                 constants=dict(MaxNodes=N, MaxEdges=E, MaxDeg=deg, MaxPairs=pairs, NKeys=nkeys, Kinds=set(kinds), RootKinds=set(roots or kinds),
-                               IntVals={0, 1}, GlobVals=set(globs), RVariants=set(rvars), ReduceFixed=fixed, Emit=emit))
+                               IntVals={0, 1}, GlobVals=set(globs), RVariants=set(rvars), ReduceFixed=fixed,
+                               SetterFixed=setter_model(), Emit=emit))
 
 
 RKINDS = {'reduce', 'glob', 'tuple', 'sdict', 'box'}
+
+
+_SETTER_MODEL = []
+
+
+def setter_model():
+    """Which of the two modelled behaviours of load_reduce with a state_setter does the tree under test have?
+    FALSE: `obj = state_setter(obj, state)` (the loaded object is the setter's return value, None for a setter that
+    follows the pickle protocol; known finding C17-reduce-state-setter, reported for every such graph);
+    TRUE: the repaired loader, which ignores the return value.  Decided by one behavioural probe so that the check
+    is bound to either tree; once the finding is marked fixed the defective behaviour is a VIOLATION again."""
+    if not _SETTER_MODEL:
+        import h5py
+        from tenpy.tools import hdf5_io
+        o = og.RObj()
+        o._variant = 5
+        o.a = 1
+        d = tlc.scratch('c17-setter')
+        try:
+            with warnings.catch_warnings():
+                warnings.simplefilter('ignore')
+                with h5py.File(os.path.join(d, 's.h5'), 'w') as f:
+                    hdf5_io.save_to_hdf5(f, o, 'x')
+                with h5py.File(os.path.join(d, 's.h5'), 'r') as f:
+                    back = hdf5_io.load_from_hdf5(f, 'x')
+        finally:
+            shutil.rmtree(d, ignore_errors=True)
+        _SETTER_MODEL.append(back is not None)
+    return _SETTER_MODEL[0]
 
 
 def mc_configs(tier):
@@ -357,6 +387,7 @@ def graph_layer(ctx):
                                    tuple_back_edges=sum(1 for r in table.values() if r['tback']) if share else 0,
                                    replay_s=round(time.time() - t1, 1))
         ctx.notes['graph_layer'] = stats
+        ctx.notes['state_setter_model'] = 'repaired (return value ignored)' if setter_model() else 'as implemented: returns the setter result'
         if not ctx.only or 'witness' in ctx.only or 'graph' in ctx.only:
             witness_old_protocol(ctx)
     finally:
